@@ -60,6 +60,12 @@ struct Sess {
     held: Vec<Msg>,
     deaf_noted: bool,
     partition_until: u64,
+    sent_fnv: u64,
+    sent_len: u64,
+    pushed_fnv: u64,
+    pushed_len: u64,
+    /// segments sent towards the client while partitioned, in send order
+    part_held: std::collections::VecDeque<Vec<u8>>,
 }
 
 fn note(who: &str, what: String) {
@@ -105,10 +111,25 @@ impl Sess {
         out
     }
 
+    fn note_pushed(&mut self, seg: &[u8]) {
+        for b in seg {
+            self.pushed_fnv = (self.pushed_fnv ^ *b as u64).wrapping_mul(0x0000_0100_0000_01B3);
+        }
+        self.pushed_len += seg.len() as u64;
+        if self.pushed_len == self.sent_len && self.pushed_fnv != self.sent_fnv {
+            panic!("harness: simulated network reordered the stream of {}", self.plan.name);
+        }
+    }
+
     fn send_raw(&mut self, bytes: Vec<u8>) {
         if self.silent || bytes.is_empty() {
             return;
         }
+        // self-check of the simulated network: what reaches the pipe must be this stream, in order
+        for b in &bytes {
+            self.sent_fnv = (self.sent_fnv ^ *b as u64).wrapping_mul(0x0000_0100_0000_01B3);
+        }
+        self.sent_len += bytes.len() as u64;
         let now = self.now();
         let lat = self.rng.range(self.plan.net.lat_min, self.plan.net.lat_max);
         let mut at = (now + lat).max(self.last_push_at);
@@ -459,12 +480,14 @@ impl Sess {
         match a {
             Action::Push(seg) => {
                 // partitioned: the segment is still in flight, it arrives when the partition heals
+                // (held in send order: re-scheduling them one by one would let a later segment
+                // overtake an earlier one when a second partition starts before the first heals)
                 let now = self.now();
-                if now < self.partition_until {
-                    let at = self.partition_until;
-                    self.schedule(at, Action::Push(seg));
+                if now < self.partition_until || !self.part_held.is_empty() {
+                    self.part_held.push_back(seg);
                     return;
                 }
+                self.note_pushed(&seg);
                 if !self.end.push(seg) {
                     // client side is gone
                     self.done = true;
@@ -505,6 +528,13 @@ impl Sess {
                 if self.now() >= self.partition_until {
                     self.stalled = false;
                     world::log(Ev::Fault { kind: "partition-heal".into(), detail: self.end.conn.to_string() });
+                    while let Some(seg) = self.part_held.pop_front() {
+                        self.note_pushed(&seg);
+                        if !self.end.push(seg) {
+                            self.done = true;
+                            break;
+                        }
+                    }
                 }
             }
             Action::Unstall => {
@@ -614,6 +644,11 @@ fn new_session(plan: Arc<PeerPlan>, sh: Arc<Shared>, has: Arc<Mutex<Vec<bool>>>,
         held: Vec::new(),
         deaf_noted: false,
         partition_until: 0,
+        sent_fnv: 0xcbf29ce484222325,
+        sent_len: 0,
+        pushed_fnv: 0xcbf29ce484222325,
+        pushed_len: 0,
+        part_held: std::collections::VecDeque::new(),
     }
 }
 
